@@ -10,6 +10,10 @@ var Registry = map[string]func(tier string){
 	"C01": C01,
 	"C02": C02,
 	"C03": C03,
+	"C04": C04,
+	"C12": C12,
+	"C13": C13,
+	"C14": C14,
 }
 
 // Worker is the entry point of re-exec'd worker processes (C09).
